@@ -100,6 +100,10 @@ pub struct UnmockCase {
     pub mention_unmatched: bool,
     /// recursion depth through the mock (adds a dedicated recursive method as method 0)
     pub recursion: Option<u8>,
+    /// a mock-induced panic (call to an extra method without implementation) is provoked and caught on
+    /// the same mock before the target call
+    #[serde(default)]
+    pub prior_error: bool,
 }
 
 impl UnmockCase {
@@ -196,6 +200,10 @@ pub fn source(c: &UnmockCase) -> String {
             }
         })
         .collect();
+    let mut regs = regs;
+    if c.prior_error {
+        regs.push("_".to_string());
+    }
     s.push_str(&format!(
         "#[unimock(api=M, unmock_with=[{}])]\npub trait Tr {{\n",
         regs.join(", ")
@@ -212,6 +220,9 @@ pub fn source(c: &UnmockCase) -> String {
         } else {
             s.push_str(&format!("    {};\n", sig(i, m)));
         }
+    }
+    if c.prior_error {
+        s.push_str("    fn zz(&self) -> u32;\n");
     }
     s.push_str("}\n\n");
     if c.recursion.is_some() {
@@ -312,6 +323,9 @@ pub fn source(c: &UnmockCase) -> String {
     s.push_str(&format!(
         "    let mut u = Unimock::{ctor}({clause}).no_verify_in_drop();\n"
     ));
+    if c.prior_error {
+        s.push_str("    let prior = std::panic::catch_unwind(std::panic::AssertUnwindSafe(|| <Unimock as Tr>::zz(&u)));\n    assert!(prior.is_err(), \"HARNESS: zz() did not panic\");\n");
+    }
     let recv = if m.mut_recv { "&mut u" } else { "&u" };
     let call = format!(
         "<Unimock as Tr>::m{t}({recv}{})",
@@ -457,6 +471,7 @@ pub fn judge(c: &UnmockCase, line: &str) -> Result<CaseInfo, String> {
             c.default_body_expected(),
             "provided+unmentioned->default-body",
         )
+        .class_if(c.prior_error, "after-a-caught-mock-error")
         .class_if(m.mut_recv, "recv:&mut self")
         .class_if(m.asy != Asy::Sync, "async")
         .class_if(c.recursion.is_some(), "recursion-through-mock")
@@ -533,16 +548,11 @@ pub fn case_strategy() -> impl Strategy<Value = UnmockCase> {
         any::<bool>(),
         any::<bool>(),
         proptest::option::weighted(0.35, 0..=6u8),
+        proptest::bool::weighted(0.3),
     )
-        .prop_map(|(methods, t, partial, mention_unmatched, recursion)| {
+        .prop_map(|(methods, t, partial, mention_unmatched, recursion, prior_error)| {
             let target = t as usize % methods.len();
-            UnmockCase {
-                methods,
-                target,
-                partial,
-                mention_unmatched,
-                recursion,
-            }
+            UnmockCase { methods, target, partial, mention_unmatched, recursion, prior_error }
         })
 }
 
